@@ -11,7 +11,7 @@ import re
 
 from .. import AnalysisError
 from ..absint import Interp, State, V
-from ..astutil import bind_call, deref, names_in, walk_stmts
+from ..astutil import bind_call, deref, names_in, single_def, walk_stmts
 from ..consteval import ConstEval, NotConstant
 from ..domains.nullness import NullDomain, VV
 from ..model import src_of
@@ -449,6 +449,8 @@ def run(ctx):
     check_dict_keys(ctx, "R20")
     ctx.rule("R21", "FCHK gradient / Hessian / polarizability: packed by the writer, unpacked by the reader to the same array (evaluated)", "Fortran-order flattening or a strict lower triangle: derivatives attached to other atoms, diagonal force constants lost")
     check_fchk_packed_arrays(ctx, "R21")
+    ctx.rule("R33", "WFX: every per-atom section is written from the attribute the reader files it under; the gradient keeps its sign", "atomic numbers written from the core charges, or forces written where the reader expects gradients")
+    check_wfx_field_sources(ctx, "R33")
     ctx.rule("R22", "FCIDUMP: the symmetry-unique records written rebuild the full integral arrays when read (evaluated)", "`>=` turned into `>` or a loop bound one short: a class of integrals is never written and comes back as zero")
     check_fcidump_integrals(ctx, "R22")
     ctx.rule("R23", "FCHK quadrupole: written in the file's component order, read back into the object's (evaluated)", "the reader's permutation used by the writer: xz / yz / zz come back cyclically permuted")
@@ -819,6 +821,79 @@ def check_fcidump_record_indices(ctx, rid):
         ctx.violate(rid, f"FCIDUMP writer, {bad}", do, wloops[0], construct=f"fcidump records: {bad}"[:170])
     else:
         ctx.ok(rid, f"FCIDUMP writer: {n4} two-electron records `v i j k l` = <ik|jl> and {n2} one-electron records `v i j 0 0`, one-based", f"{do.module.relpath}:{wloops[0].lineno}")
+
+
+def check_wfx_field_sources(ctx, rid):
+    """WFX sections are fed from the attribute the reader files them under.
+
+    The reader's result dictionary says which parsed section goes to which attribute (`"atnums": data["atnums"]`,
+    `"atcorenums": data["nuclear_charge"]`, ...); the writer names its sections by the same keys (`lbs["atnums"]`).
+    For every such section written from the object, the value handed to the section writer -- followed through locals
+    -- must come from that attribute and from no other attribute of the object, and the gradient must not change sign
+    on the way (the reader takes the section as dE/dR as it stands)."""
+    prog = ctx.prog
+    lo = prog.format_op("wfx", "load_one")
+    do = prog.format_op("wfx", "dump_one")
+    key2attr = {}
+    for n in lo.own_nodes():
+        if isinstance(n, ast.Return) and isinstance(n.value, ast.Dict):
+            for k, v in zip(n.value.keys, n.value.values):
+                if not (isinstance(k, ast.Constant) and isinstance(k.value, str)):
+                    continue
+                key = None
+                if isinstance(v, ast.Subscript) and isinstance(v.value, ast.Name) and isinstance(v.slice, ast.Constant):
+                    key = v.slice.value
+                elif isinstance(v, ast.Call) and isinstance(v.func, ast.Attribute) and v.func.attr == "get" and v.args and isinstance(v.args[0], ast.Constant):
+                    key = v.args[0].value
+                if isinstance(key, str):
+                    key2attr[key] = k.value
+    if len(key2attr) < 5:
+        raise AnalysisError(f"wfx.load_one: the result dictionary maps only {len(key2attr)} parsed sections to attributes")
+    dparam = do.posparams[1]
+
+    def sources(e, depth=0):
+        """Attributes of the object an expression is computed from (through single-definition locals)."""
+        out = set()
+        for x in ast.walk(e):
+            if isinstance(x, ast.Attribute) and isinstance(x.value, ast.Name) and x.value.id == dparam:
+                out.add(x.attr)
+            elif isinstance(x, ast.Name) and x.id in do.locals and x.id not in do.params and depth < 4:
+                d = single_def(do, x.id)
+                if d is not None:
+                    out |= sources(d, depth + 1)
+        return out
+
+    n = 0
+    for cs in do.calls:
+        c = cs.node
+        if not (cs.callees and cs.callees[0].module is do.module):
+            continue
+        kw = {k.arg: k.value for k in c.keywords}
+        tag = kw.get("tag", c.args[0] if c.args else None)
+        info = kw.get("info", c.args[1] if len(c.args) > 1 else None)
+        if not (isinstance(tag, ast.Subscript) and isinstance(tag.slice, ast.Constant) and isinstance(tag.slice.value, str)) or info is None:
+            continue
+        key = tag.slice.value
+        attr = key2attr.get(key)
+        if attr is None:
+            continue
+        src = sources(info)
+        per_atom = {"atnums", "atcorenums", "atcoords", "atgradient", "atmasses"}
+        if src & per_atom or attr in per_atom:
+            n += 1
+            if src & (per_atom | {attr}) == {attr}:
+                ctx.ok(rid, f"wfx: section `{key}` is written from data.{attr}, the attribute the reader files it under", f"{do.module.relpath}:{c.lineno}", sample=(n % 3 == 1))
+            else:
+                ctx.violate(rid, f"wfx.dump_one writes the section `{key}` from {sorted('data.' + a for a in src) or 'no attribute of the object'}; the reader stores that section as `{attr}`: after a reload {attr} holds another quantity (centres with an effective core charge or ghost centres come back as other elements)", do, c, construct=f"wfx section {key} <- {sorted(src)}")
+    ctx.floor(rid, n, 2, "per-atom WFX sections written from the object")
+    # the gradient section is printed as it stands
+    neg = [x for x in do.own_nodes() if isinstance(x, ast.UnaryOp) and isinstance(x.op, ast.USub) and "atgradient" in sources(x.operand)]
+    neg += [x for x in do.own_nodes() if isinstance(x, ast.BinOp) and isinstance(x.op, ast.Mult) and any(isinstance(y, ast.Constant) and isinstance(y.value, (int, float)) and y.value < 0 for y in (x.left, x.right)) and "atgradient" in sources(x)]
+    neg += [x for x in do.own_nodes() if isinstance(x, ast.BinOp) and isinstance(x.op, ast.Mult) and any(isinstance(y, ast.UnaryOp) and isinstance(y.op, ast.USub) for y in (x.left, x.right)) and "atgradient" in sources(x)]
+    if neg:
+        ctx.violate(rid, f"wfx.dump_one changes the sign of the gradient (`{src_of(neg[0])[:60]}`) before writing <Nuclear Cartesian Energy Gradients>; the reader takes the section as dE/dR: gradients come back with the opposite sign", do, neg[0], construct="wfx gradient sign")
+    else:
+        ctx.ok(rid, "wfx: the gradient section is written from data.atgradient without a change of sign", f"{do.module.relpath}:{do.lineno}")
 
 
 def check_fcidump_integrals(ctx, rid):
